@@ -6,8 +6,10 @@ package main
 
 import (
 	"fmt"
+	"math"
 	"math/big"
 	"sort"
+	"strconv"
 	"strings"
 
 	"verif/mc"
@@ -37,7 +39,27 @@ func lattice(extent int) []float64 {
 		add(float64(extent) + float64(k)/8)
 	}
 	sort.Float64s(v)
+	// far outside, among them values that look like the inside value once cut to 16 / 31 / 32 / 33
+	// bits, values beyond the int range, and the three non-finite values (appended after the sort:
+	// NaN has no place in an order)
+	in := insideValue(extent)
+	for _, b := range []float64{1 << 16, 1 << 31, 1 << 32, 1 << 33, 1 << 53, 1 << 62} {
+		v = append(v, b, b+in, -b, -b+in)
+	}
+	v = append(v, 1<<63, -(1 << 63), 1e19, -1e19, math.MaxFloat64, -math.MaxFloat64, math.Inf(1), math.Inf(-1), math.NaN())
 	return v
+}
+
+// classifyFloat is classifyAxis for any float64: non-finite values and values beyond the range of
+// the exact model's integer part are "more than one pixel outside" (NaN is counted to the high side).
+func classifyFloat(f float64, extent int) axisClass {
+	switch {
+	case math.IsNaN(f) || f >= 1<<62:
+		return axisClass{cl: clNF, dir: 1}
+	case f <= -(1 << 62):
+		return axisClass{cl: clNF, dir: -1}
+	}
+	return classifyAxis(rf(f), extent)
 }
 
 func passName(point, n int) string {
@@ -80,7 +102,7 @@ func directEval(w, h int, in []float64, cache [2]map[float64]axisClass) directVe
 		}
 		ac, hit := cache[i%2][f]
 		if !hit {
-			ac = classifyAxis(rf(f), ext)
+			ac = classifyFloat(f, ext)
 		}
 		cl, p := ac.cl, ac.pix
 		pix[i] = p
@@ -126,8 +148,7 @@ func coordSide(w, h int, in []float64, i int) string {
 	if i%2 == 1 {
 		ext = h
 	}
-	_, _, dir := classify(rf(in[i]), ext)
-	return sideName(i%2 == 1, dir)
+	return sideName(i%2 == 1, classifyFloat(in[i], ext).dir)
 }
 
 // checkDirect evaluates one input and reports a violation under a key that names the pass and side.
@@ -136,6 +157,15 @@ func checkDirect(l *mc.Local, w, h int, in []float64, cache [2]map[float64]axisC
 	n := len(in) / 2
 	v := directEval(w, h, in, cache)
 	rc := rcase{Kind: "nudge-direct", W: w, H: h, Points: append([]float64{}, in...)}
+	for _, f := range in {
+		if math.IsNaN(f) || math.IsInf(f, 0) {
+			rc.Points = nil
+			for _, g := range in {
+				rc.PointsText = append(rc.PointsText, strconv.FormatFloat(g, 'g', -1, 64))
+			}
+			break
+		}
+	}
 	where := func(i int) string { return passName(i/2, n) + "/" + coordSide(w, h, in, i) }
 	desc := fmt.Sprintf("checkAndNudgePoints(image %dx%d, %v): ", w, h, in)
 	switch v.verdict {
@@ -205,17 +235,17 @@ func runNudgeDirect() {
 			}
 		}
 	}
-	chk.Range("nudge, direct: images {5x7,32x3,1x1} x rows of {1,2,3,6} points x {first point, last point: every (x,y) of the lattice product; first.{x|y} x last.{x|y}: every pair} on the lattice {inside, edge-1.5..edge+1.5 step 1/8 around both edges, integers included}; other points inside",
+	chk.Range("nudge, direct: images {5x7,32x3,1x1} x rows of {1,2,3,6} points x {first point, last point: every (x,y) of the lattice product; first.{x|y} x last.{x|y}: every pair} on the lattice {inside, edge-1.5..edge+1.5 step 1/8 around both edges, integers included; +-2^b and +-2^b + inside for b in {16,31,32,33,53,62}; +-2^63, +-1e19, +-MaxFloat64, +-Inf, NaN}; other points inside",
 		len(jobs), func(i int) string { return fmt.Sprint(jobs[i]) },
 		func(l *mc.Local, i int) {
 			j := jobs[i]
 			lx, ly := lattice(j.w), lattice(j.h)
 			cache := [2]map[float64]axisClass{{}, {}}
 			for _, x := range lx {
-				cache[0][x] = classifyAxis(rf(x), j.w)
+				cache[0][x] = classifyFloat(x, j.w)
 			}
 			for _, y := range ly {
-				cache[1][y] = classifyAxis(rf(y), j.h)
+				cache[1][y] = classifyFloat(y, j.h)
 			}
 			base := make([]float64, 2*j.n)
 			for k := 0; k < j.n; k++ {
@@ -529,6 +559,13 @@ func replay() {
 		sampleCase(l, c.DimX, c.DimY, xform{class: c.Class, member: "replay", to: c.Src, from: c.Dst}, &c)
 	case "nudge-direct":
 		var none [2]map[float64]axisClass
+		if len(c.PointsText) > 0 {
+			c.Points = nil
+			for _, t := range c.PointsText {
+				f, _ := strconv.ParseFloat(t, 64)
+				c.Points = append(c.Points, f)
+			}
+		}
 		v := directEval(c.W, c.H, c.Points, none)
 		fmt.Printf("library vs model: verdict=%q %s\n", v.verdict, v.what)
 		checkDirect(l, c.W, c.H, c.Points, none)
